@@ -135,7 +135,8 @@ def correspond(ctx):
         exprs.append(f'map (fun k => map (fun n => match {b}_cond k n with Some c => Some ({b}_neg c) | None => None end) (seq 0%nat {NV}%nat)) (seq 0%nat {nb + 1}%nat)')
         tags.append(('neg', b))
     flagsets = {}
-    for b in ('jobs_v1', 'batches_v1', 'groups_v1', 'jobs_v2', 'batches_v2', 'completed', 'billing_jobs'):
+    for b in ('jobs_v1', 'batches_v1', 'groups_v1', 'jobs_v2', 'batches_v2', 'completed', 'billing_jobs', 'billing', 'bp_with_cost',
+              'bp_without_cost'):
         nf = len(info[b]['flags'])
         for fl in itertools.product((False, True), repeat=nf):
             exprs.append(f'{b}_init ' + ' '.join(_b(x) for x in fl))
@@ -228,6 +229,48 @@ def correspond(ctx):
         if mv is None or _from_coq(mv) != real:
             dis.append(Disagreement('list-where: real builder ~ generated model (whole WHERE clause)', c,
                                     None if mv is None else _from_coq(mv)[:12], real[:12]))
+    # ---- billing read paths: real handlers (full stacks) -> the statement they issue = the generated builder for the flags the
+    #      caller kind and the request parameters determine; the scope atoms are bound to the caller / the project of the URL
+    bres = billing_results(ctx)
+    n_bill = 0
+    for r in bres['results']:
+        if 'unsupported' in r or r.get('kind') not in BILLING_BUILDER:
+            continue
+        c = r['case']
+        user = c['user']
+        dev = user in bres['world']['developers']
+        for stn in r['stmts']:
+            n_bill += 1
+            if 'error' in stn:
+                dis.append(Disagreement('billing-where: statement of the real handler ~ generated model', c, 'a WHERE clause', stn))
+                continue
+            h = r['handler']
+            b = BILLING_BUILDER[r['kind']]
+            if b == 'billing':
+                fl = (_valid_date(c['query'].get('end')), not dev)
+            elif b == 'bp_without_cost':
+                fl = (False, False)
+            else:
+                rest = r['kind'] in ('bp-api', 'bp-api-one')
+                fl = ((not dev) and not (rest and user == 'auth'), r['kind'] == 'bp-api-one')
+            real = _numbered(stn['items'], atoms)
+            want = _join(init[(b, fl)])
+            if real != want:
+                dis.append(Disagreement(f'billing-where: statement of the real handler {h} ~ generated {b}_init for the flags of the caller '
+                                        'kind and the request', dict(c, flags=dict(zip(info[b]['flags'], fl))), want, real))
+                continue
+            if stn['n_args'] != stn['n_placeholders']:
+                dis.append(Disagreement('billing-where: placeholders ~ arguments', c, stn['n_placeholders'], stn['n_args']))
+            for text, args in stn['bound']:
+                exp = None
+                if atoms.get(text) in (30, 31):
+                    exp = [user]
+                elif atoms.get(text) == 32:
+                    exp = [str(c['match'].get('billing_project'))]
+                if exp is not None and args != exp:
+                    dis.append(Disagreement('billing-where: scope atom bound to the caller / the project of the URL', c, exp, [text, args]))
+    shapes['billing statements'] = n_bill
+    n_eval += n_bill
     # a state keyword must hit the OR-join branch with as many values as the keyword has states
     n_terms = len(term_key)
     return Corr(evaluations=n_eval + len(full), distinct_nontrivial=n_eval,
@@ -238,7 +281,8 @@ def correspond(ctx):
                 samples=[{'case': c, 'model_expr': e[:200]} for e, _, c in full[:2]],
                 disagreements=dis, histograms={'list_statements_per_builder': shapes, 'v1_term_keys': {f'{b}:{t}': list(k) for (b, t), k in sorted(term_key.items())}},
                 exhaustive=False,
-                names=['list-where (real builder ~ generated model)', 'list-precedence (ListModel.run ~ MySQL precedence)'])
+                names=['list-where (real builder ~ generated model)', 'list-precedence (ListModel.run ~ MySQL precedence)',
+                       'billing-where (statement of the real handler ~ generated model for the caller kind and parameters)'])
 
 
 def _lit(items):
@@ -311,10 +355,62 @@ def oracle_cases(ctx, budget):
     return cases
 
 
+BILLING_BUILDER = {'billing-ui': 'billing', 'bp-ui-limits': 'bp_with_cost', 'bp-api': 'bp_with_cost', 'bp-api-one': 'bp_with_cost',
+                   'bp-ui-dev': 'bp_without_cost'}
+BILLING_USERS = ['alice', 'bob', 'carol', 'dave', 'dev', 'auth']
+BILLING_PROJECTS = ['pa', 'pb', 'pab', 'pc', 'pclosed', 'pdel', 'nope']
+
+
+def _valid_date(s):
+    import datetime
+    if s is None or s == '':
+        return False
+    try:
+        datetime.datetime.strptime(s, '%m/%d/%Y')
+        return True
+    except ValueError:
+        return False
+
+
+def billing_cases():
+    """every caller kind x start x end on GET /billing; every caller kind x every billing project on the project reads"""
+    cases = []
+    starts = [None, '03/01/2024', '01/01/2020', 'garbage']
+    ends = [None, '', '03/31/2024', '12/31/2030', '01/01/2019', '13/45/2024']
+    for user in BILLING_USERS:
+        for st in starts:
+            for en in ends:
+                q = {}
+                if st is not None:
+                    q['start'] = st
+                if en is not None:
+                    q['end'] = en
+                cases.append({'path': '/billing', 'user': user, 'match': {}, 'query': q})
+        for path in ('/billing_limits', '/billing_projects', '/api/v1alpha/billing_projects'):
+            cases.append({'path': path, 'user': user, 'match': {}, 'query': {}})
+        for bp in BILLING_PROJECTS:
+            cases.append({'path': '/api/v1alpha/billing_projects/{billing_project}', 'user': user, 'match': {'billing_project': bp}, 'query': {}})
+    return cases
+
+
+def billing_results(ctx):
+    if getattr(ctx, '_c14_billing', None) is None:
+        ctx._c14_billing = run_cases(ctx, billing_cases())
+    return ctx._c14_billing
+
+
 def _classify(r):
+    whys = [x['why'] for x in r['bad_rows']] + [x['why'] for x in r['bad_entries']]
+    if r.get('kind') in BILLING_BUILDER:
+        if r.get('refused_wrongly_served'):
+            return 'served-to-unprivileged-caller'
+        if any('another user' in w for w in whys):
+            return 'spend-of-another-user'
+        if whys:
+            return 'foreign-billing-project'
+        return None
     if r.get('refused_wrongly_served'):
         return 'served-to-non-member'
-    whys = [x['why'] for x in r['bad_rows']] + [x['why'] for x in r['bad_entries']]
     if any('not a member' in w for w in whys):
         return 'foreign-billing-project-row'
     if any('another batch' in w for w in whys):
@@ -332,6 +428,9 @@ def run_cases(ctx, cases):
 def oracle(ctx, budget):
     cases = oracle_cases(ctx, budget)
     out = run_cases(ctx, cases)
+    bres = billing_results(ctx)
+    out['results'] = out['results'] + bres['results']
+    out['world'] = bres['world']
     if out['missing_routes']:
         raise RuntimeError(f'listing routes not registered by the real run(): {out["missing_routes"]} (update LIST_ROUTES of c14_lists.py)')
     fails = {}
@@ -351,10 +450,11 @@ def oracle(ctx, budget):
         path = r['case']['path']
         key = f'list GET {path}|{cls}'
         if key not in fails or len(r['case']['query'].get('q', '')) < len(fails[key].case['query'].get('q', '')):
-            fails[key] = Failure(key, f'GET {path} ({r.get("handler")}) as {r["case"]["user"]} with q={r["case"]["query"].get("q")!r}: {cls}',
+            fails[key] = Failure(key, f'GET {path} ({r.get("handler")}) as {r["case"]["user"]} with query {r["case"]["query"]!r}: {cls}',
                                  dict(r['case'], list=True, world=out['world']),
                                  'every fetched row and every listed entry belongs to the batch / job group of the URL and to a billing '
-                                 'project the caller is a member of; a non-member gets 404',
+                                 'project the caller is a member of; a non-member gets 404; billing: a caller who is neither a developer '
+                                 'nor the auth service is shown spend rows of his own user and billing projects he is a member of only',
                                  {'status': r['status'], 'n_entries': r.get('n'), 'bad_rows': r['bad_rows'], 'bad_entries': r['bad_entries']})
     return list(fails.values()), {'evaluations': n, 'distinct_nontrivial': nonempty,
                                   'rule': 'list oracle: real listing handlers (full decorator stacks) on a 7-batch / 4-billing-project / 3-user '
